@@ -46,8 +46,54 @@ def gen_eff(env):
     return _imp("gen_eff").run(env)
 
 
+HIST_RULE = ("block histories from the empty accumulator generated from one PRNG (VERIF_SEED): deletion strategy in "
+             "{none, all, whole tree, sibling pairs, climbed leaves/roots, random subset}, addition counts biased to cross "
+             "powers of two and to overwrite empty roots; distinct_nontrivial = number of distinct history signatures "
+             "(sequence of strategy/|dels|/|adds| per block)")
+
 PROPS = {
+    "C01": dict(
+        rule=HIST_RULE + "; after every block Stump, Pollard and full MapPollard (TotalRows 0,1,3,5,31,50,63) report roots and "
+             "leaf count, judged against the reference forest (roots of the compressed slot segments)",
+        strength="P: batching/leaf-count theorems on the reference; V: Stump/Pollard/MapPollard = reference on every block",
+        level_text="Theorems about the reference forest (batching independence, leaf count) plus a correspondence run in which "
+                   "an oracle extracted from the Coq reference judges the roots all three implementations report after every block "
+                   "of random histories. The refinement of the Go algorithms to the reference is validated by that run, not yet proved.",
+        technique="Coq reference model + extracted-oracle correspondence over random block histories",
+    ),
+    "C02": dict(
+        rule=HIST_RULE + "; before every block Pollard and MapPollard prove the block's deletions and 3 random subsets in random "
+             "order; the proofs are compared with the reference's canonical proof; the canonical proof is given to Verify, "
+             "Pollard.Verify and MapPollard.Verify (must accept, returned root indexes compared) and to the Verify mirror",
+        strength="P: canonical order; V: Prove = canonical proof, verifiers accept, mirror(Verify) = Verify",
+        level_text="Canonical proofs are defined on the Coq reference (siblings of targets-and-ancestors that are not themselves in that "
+                   "set, ascending); the extracted oracle checks byte-for-byte that every prover returns them and that every verifier "
+                   "accepts them, and the Gallina mirror of Verify/calculateHashes is compared with the code on the same calls.",
+        technique="Coq reference model + mirror of Verify + extracted-oracle correspondence",
+    ),
+    "C10": dict(
+        rule=HIST_RULE + "; after every block: GetLeafPosition for every live leaf, every dead leaf, every internal node hash and a "
+             "fresh hash; GetHash for every position in [0, 2^(rows+1)+3] and 2^40, 2^63, 2^64-2, 2^64-1; NodeMap/NumDels/"
+             "CachedLeaves counts; Pollard and full MapPollard (TotalRows 0,4,63)",
+        strength="P: look-up theorems on the reference; V: implementation look-ups = reference",
+        level_text="Look-up semantics are theorems about the reference layout; every look-up the implementation answers along random "
+                   "histories is judged by the extracted oracle. One known finding (D7) is reported, any other wrong answer is a violation.",
+        technique="Coq reference model + extracted-oracle correspondence",
+    ),
+    "C11": dict(
+        rule=HIST_RULE + "; every block's UpdateData is compared field by field with the reference update data and the whole "
+             "Stump.Update call with its Gallina mirror",
+        strength="P: field order/sortedness on the reference; V: UpdateData = reference, mirror(Stump.Update) = Stump.Update",
+        level_text="Update data is defined on the Coq reference (destroyed empty roots in order, post-deletion hashes of every pre-block "
+                   "node on a target-to-root path, added leaves and children of created parents); the extracted oracle compares every "
+                   "field of every UpdateData the stump returns, and the Gallina mirror of Stump.Update is compared with the code.",
+        technique="Coq reference model + mirror of Stump.Update + extracted-oracle correspondence",
+    ),
     "C16": dict(
+        level_text="Geometry theorems (Qed, no axioms) about an executable Gallina mirror of utils.go with uint64/uint8 wrap-around "
+                   "written out; the mirror is compared with the code on every generated call (exhaustive for small heights, boundary/"
+                   "random up to height 63), so a change of the code shows up as a correspondence failure.",
+        technique="Coq proof about executable mirror + extracted-oracle correspondence",
         rule="every exported/unexported position function is called on (a) all positions 0..2^(h+1)+2, all leaf "
              "counts, all rises/drops for heights h<=5 (quick) / 7 (thorough), all target subsets of forests <= 6/9 "
              "leaves for ProofPositions/deTwin, (b) row starts/ends +-1, 2^63, 2^64-1 and random 64-bit values for "
@@ -56,3 +102,6 @@ PROPS = {
         assumptions=["forestRows <= 63 in the theorems (the property's own bound)"],
     ),
 }
+
+HOOK_COMMITS = ["1f8cf1e"]
+NOT_YET = {}
